@@ -708,7 +708,9 @@ def apply_R15b(body, stats):
             if i >= len(m):
                 continue
             close = match_close(m, i)
-            if not re.fullmatch(r"\s*continue\s*;?\s*", m[i + 1:close]):
+            inner = m[i + 1:close]
+            mc = re.fullmatch(r"(.*?)(?<![\w])continue\s*;?\s*", inner, re.S)
+            if not mc:
                 continue
             if re.match(r"\s*else\b", m[close + 1:]):
                 continue
@@ -716,8 +718,56 @@ def apply_R15b(body, stats):
                 continue   # `if let` guard: not a boolean condition
             cond = body[mm.end():i].strip()
             rest = body[close + 1:l["body_close"]]
-            body = body[:mm.start()] + "if !(" + cond + ") {" + rest + "}\n" + body[l["body_close"]:]
+            pre = body[i + 1:i + 1 + len(mc.group(1))]
+            if pre.strip() == "":
+                body = body[:mm.start()] + "if !(" + cond + ") {" + rest + "}\n" + body[l["body_close"]:]
+            else:
+                # `if c { stmts; continue; } rest`  ->  `if c { stmts } else { rest }`
+                if re.search(r"(?<![\w])continue\b", mask(pre)):
+                    continue
+                body = body[:mm.start()] + "if " + cond + " {" + pre + "} else {" + rest + "}\n" + body[l["body_close"]:]
             stats["R15b"] = stats.get("R15b", 0) + 1
+            done = False
+            break
+        if done:
+            return body
+
+
+def apply_R15d(body, stats):
+    """`let x = match E { P => v, Q => continue, };` directly in a for-loop body -> `match E { P => { let x = v; REST } Q => {} }`
+    (two arms, one of them `continue`)."""
+    while True:
+        m = mask(body)
+        loops = [l for l in find_loops(m) if l["kw"] == "for"]
+        done = True
+        for mm in re.finditer(r"(?<![\w])let\s+((?:mut\s+)?[A-Za-z_]\w*)\s*=\s*match\b", m):
+            encl = [l for l in loops if l["hdr_end"] < mm.start() < l["body_close"]]
+            if not encl:
+                continue
+            l = max(encl, key=lambda x: x["hdr_end"])
+            if enclosing_open(m, mm.start()) != l["hdr_end"]:
+                continue
+            i = mm.end()
+            while i < len(m) and m[i] != "{":
+                if m[i] in "([":
+                    i = match_close(m, i)
+                i += 1
+            if i >= len(m):
+                continue
+            close = match_close(m, i)
+            semi = re.match(r"\s*;", m[close + 1:])
+            if not semi:
+                continue
+            arms = body[i + 1:close]
+            am = re.fullmatch(r"\s*(?P<p1>[^=]+?)\s*=>\s*(?P<v1>[^,{}]+?)\s*,\s*(?P<p2>[^=]+?)\s*=>\s*continue\s*,?\s*", arms, re.S) \
+                or re.fullmatch(r"\s*(?P<p2>[^=]+?)\s*=>\s*continue\s*,\s*(?P<p1>[^=]+?)\s*=>\s*(?P<v1>[^,{}]+?)\s*,?\s*", arms, re.S)
+            if not am:
+                continue
+            scrut = body[mm.end():i].strip()
+            rest = body[close + 1 + semi.end():l["body_close"]]
+            new = "match %s { %s => { let %s = %s; %s } %s => {} }\n" % (scrut, am.group("p1").strip(), mm.group(1), am.group("v1").strip(), rest, am.group("p2").strip())
+            body = body[:mm.start()] + new + body[l["body_close"]:]
+            stats["R15d"] = stats.get("R15d", 0) + 1
             done = False
             break
         if done:
@@ -1054,6 +1104,7 @@ def generate(template_path, flavour, repo="/repo", vacuity=False, rules=None, ba
             body = "\n        let mut slf = self;" + re.sub(r"(?<![\w.])self\b", "slf", body)
             stats["R14"] = stats.get("R14", 0) + 1
         body = apply_R5(body, stats)
+        body = apply_R15d(body, stats)
         body = apply_R15b(body, stats)
         body = apply_R15(body, stats)
         if bare and b.id in bare:
